@@ -51,6 +51,10 @@ MUTANTS = [
     ('testTearDown-forward', 'C05', R,
      "        for layer in self.layers[-1::-1]:\n            if hasattr(layer, 'testTearDown'):",
      "        for layer in self.layers:\n            if hasattr(layer, 'testTearDown'):"),
+    # (machinery test of the cross-version tier: a result method that fails below 3.12 only)
+    ('addSkip-breaks-on-older-pythons', 'C04', R,
+     "    def addSkip(self, test, reason):\n",
+     "    def addSkip(self, test, reason):\n        if sys.version_info < (3, 12):\n            reason = reason.decode('ascii')\n"),
     # breaks only under interpreters older than the one the simulator itself runs on: must be
     # caught by the cross-version tier (real processes under 3.9/3.10/3.11)
     ('per-test-teardown-skipped-on-older-pythons', 'C05', R,
